@@ -177,6 +177,12 @@ def extract(frag_specs):
         src = source(rel)
         for f, r in zip(fs, res):
             if not r.get("found"):
+                if f.get("optional"):
+                    # an item that may or may not exist (e.g. helper impl blocks): absent -> empty text
+                    fr = Fragment(f["name"], rel, f["sel"], f.get("part", "whole"), "", [0, 0, 0, 0])
+                    fr.rewrites.append({"why": "optional fragment: not present in the current source"})
+                    out[f["name"]] = fr
+                    continue
                 raise Undecided("lost anchor: %s in %s (%s)" % (f["sel"], rel, r.get("error", "count=%s" % r.get("count"))))
             if "expect_count" in f and r.get("count") != f["expect_count"]:
                 raise Undecided("lost anchor: %s in %s matches %s places, expected %s" % (f["sel"], rel, r.get("count"), f["expect_count"]))
